@@ -10,6 +10,8 @@
   theorems below stops building.
 -/
 import PsutilModel.Proofs.C20
+import PsutilModel.Proofs.C20Two
+import PsutilModel.Proofs.C20FaultsFixed
 namespace Psutil.C20
 open Spec
 
@@ -86,11 +88,6 @@ def justification (p : Platform) (m : String) : Option Justification :=
     else if m == "ppid" then some .systemWideOnly
     else none
 
-def nameWrapped (p : Platform) (n : String) : Bool :=
-  match methodOf? p n with
-  | some m => m.wrapped
-  | none => false
-
 def methodOK (p : Platform) (m : Method) : Bool :=
   m.wrapped ||
   (match justification p m.name with
@@ -116,51 +113,6 @@ theorem C20_inner_handlers_transcribed :
 
 /-! ### Every native call of every method -/
 
-def sweptErrs (p : Platform) : List Err :=
-  if p == .windows then
-    Errno.all.flatMap fun e => [none, some 0, some 5, some 1314, some 299, some 87].map fun w => ⟨e, w⟩
-  else Errno.all.map fun e => ⟨e, none⟩
-
-def sweptEnvs (pid : Nat) : List Env :=
-  PidState.all.flatMap fun s => [true, false].map fun l => ⟨pid, s, l⟩
-
-/-- the two Windows repairs (fixes/C20-win-ppid-wrap, fixes/C20-win-memory-maps-wrap) as a
-    configuration of the model: `fixed = true` is the repaired code (`ppid` carries
-    `wrap_exceptions`, the per-mapping loop of `memory_maps` sits inside the converting `try`),
-    `fixed = false` the code before the repairs. Everything else is the generated configuration. -/
-def variantCfg (fixed : Bool) : Cfg := { cfg with winMapsLoopGuarded := fixed }
-
-def variantMethod (fixed : Bool) (p : Platform) (m : Method) : Method :=
-  if p == .windows && m.name == "ppid" then
-    { m with decorators := if fixed then ["wrap_exceptions"] else [] }
-  else m
-
-def faultOKc (c : Cfg) (p : Platform) (m : Method) (call : String) (e : Err) (env : Env) : Bool :=
-  Spec.allowed p m.name (Spec.recoverable p m.name call) e env (methodFault c p m call e env false).1
-
-def faultOK (p : Platform) (m : Method) (call : String) (e : Err) (env : Env) : Bool :=
-  faultOKc cfg p m call e env
-
-/-- the two call sites recorded as known findings (findings/C20.json) — each one only as long as
-    the translator sees the unrepaired shape in the current source -/
-def knownFinding (p : Platform) (meth call : String) : Bool :=
-  p == .windows &&
-    ((meth == "ppid" && call == "ppid_map" && !nameWrapped .windows "ppid") ||
-     (meth == "memory_maps" && call == "QueryDosDevice" && !cfg.winMapsLoopGuarded))
-
-/-- one row of the generated traces under configuration `c`, methods seen through `mt` -/
-def traceRowOKc (c : Cfg) (mt : Platform → Method → Method) (excl : Platform → String → String → Bool)
-    (p : Platform) (row : String × Nat × List String) : Bool :=
-  match methodOf? p row.1 with
-  | none => false
-  | some m =>
-    row.2.2.all fun call =>
-      excl p row.1 call ||
-      (sweptErrs p).all fun e => (sweptEnvs row.2.1).all fun env => faultOKc c p (mt p m) call e env
-
-def traceRowOK (strict : Bool) (p : Platform) (row : String × Nat × List String) : Bool :=
-  traceRowOKc cfg (fun _ m => m) (fun p m c => !strict && knownFinding p m c) p row
-
 /-- full statement about the code as the translator sees it now: for every platform identity,
     every method, every native call the method makes (as traced under emulation), every swept
     error and every pid state, the outcome is one the specification allows -/
@@ -173,16 +125,16 @@ def C20_method_faults_within_spec_Full : Prop :=
     outcome the specification allows. No call site is excluded. -/
 theorem C20_method_faults_within_spec :
     ∀ p ∈ Platform.all, ∀ row ∈ tracesOf p,
-      traceRowOKc (variantCfg true) (variantMethod true) (fun _ _ _ => false) p row = true := by
-  decide +kernel
+      traceRowOKc (variantCfg true) (variantMethod true) (fun _ _ _ => false) p row = true :=
+  faults_table_repaired
 
 /-- **C20_method_faults_within_spec_current.** The same for the code exactly as the translator
     reads it from the current tree. A call site is excluded only while its repair is absent from
     the source (`knownFinding` consults the generated decorator list of `ppid` and the generated
     flag `winMapsLoopGuarded`): on a tree with both repairs this *is* the full statement. -/
 theorem C20_method_faults_within_spec_current :
-    ∀ p ∈ Platform.all, ∀ row ∈ tracesOf p, traceRowOK false p row = true := by
-  decide +kernel
+    ∀ p ∈ Platform.all, ∀ row ∈ tracesOf p, traceRowOK false p row = true :=
+  faults_table_current
 
 /-- once both repairs are in the source, nothing is excluded: the current-tree theorem is the full one -/
 theorem C20_method_faults_full_when_repaired
@@ -231,6 +183,64 @@ theorem C20_method_faults_not_full_unrepaired :
   revert this
   decide
 
+/-! ### Two faulted native calls of one method -/
+
+/-- **C20_two_faults_within_spec.** Two-fault sequences. For every platform identity and every
+    row of the generated table `traces2` (method, pid, first faulted call, how the method went
+    on — alternative path after an inner handler absorbed the error, or re-run by the
+    partial-copy retry —, the native calls it still makes): whatever first error `e1` put the
+    method on that path (ANY `Err`, not only the swept ones), every later call of the row ×
+    every swept second error × pid state × pid-0 listing gives an outcome the specification
+    allows for the second failure (its contract cell, or what is recoverable at that call). -/
+theorem C20_two_faults_within_spec :
+    ∀ p ∈ Platform.all, ∀ row ∈ traces2Of p, ∀ m, methodOf? p row.1 = some m →
+      ∀ mode, Mode.ofTag? row.2.2.2.1 = some mode →
+      ∀ call2 ∈ row.2.2.2.2, ∀ e2 ∈ sweptErrs p, ∀ env ∈ sweptEnvs row.2.1, ∀ (e1 : Err) (s : Nat),
+        afterFirst cfg p m row.2.2.1 e1 env = .goesOn mode s →
+        Spec.allowed2 p m.name row.2.2.1 e1 call2 e2 env
+          (methodFault2 cfg p m row.2.2.1 e1 call2 e2 env).1 = true := by
+  intro p hp row hrow m hm mode hmode call2 hc e2 he env henv e1 s hafter
+  have h := two_faults_table p hp row hrow
+  unfold row2OK at h
+  rw [hm, hmode] at h
+  simp only [List.all_eq_true] at h
+  have h2 := h call2 hc e2 he env henv
+  simpa [methodFault2, hafter, Spec.allowed2, secondOK] using h2
+
+/-- **C20_two_faults_first_ends.** When the first faulted call ends the method (nothing
+    absorbed it, no retry), a later fault changes nothing: the outcome is the single-fault one. -/
+theorem C20_two_faults_first_ends (c : Cfg) (p : Platform) (m : Method) (call1 call2 : String) (e1 e2 : Err)
+    (env : Env) (o : Outcome) (s : Nat) (h : afterFirst c p m call1 e1 env = .ended o s) :
+    methodFault2 c p m call1 e1 call2 e2 env = methodFault c p m call1 e1 env false := by
+  unfold methodFault2
+  rw [h]
+  unfold afterFirst at h
+  unfold methodFault finish
+  split at h <;> simp_all
+  all_goals (split at h <;> simp_all)
+
+/-- the table is not empty and the interesting paths are in it -/
+example : ("cpu_times", 42, "proc_times", "fallback", ["proc_info"]) ∈ traces2Of .windows ∧
+    ("cmdline", 42, "proc_cmdline", "rerun", ["proc_cmdline"]) ∈ traces2Of .windows ∧
+    ("uids", 42, "proc_cred", "fallback", ["proc_basic_info", "proc_basic_info"]) ∈ traces2Of .sunos := by
+  decide +kernel
+
+/-- Windows `cpu_times()`: `proc_times` denied (absorbed, slower fallback), then `proc_info` says
+    "no such process" → NoSuchProcess(pid, name), not the AccessDenied of the first error -/
+example : methodFault2 cfg .windows ⟨"cpu_times", ["wrap_exceptions"]⟩ "proc_times" ⟨.EACCES, some 5⟩
+    "proc_info" ⟨.ESRCH, none⟩ ⟨42, .alive, true⟩ = (.nsp 42 true, 0) := by decide
+
+/-- Windows `cmdline()`: ERROR_PARTIAL_COPY twice in a row → two sleeps, then the value;
+    denied with the PEB, then "no such process" without it → NoSuchProcess -/
+example : methodFault2 cfg .windows ⟨"cmdline", ["wrap_exceptions", "retry_error_partial_copy"]⟩ "proc_cmdline"
+      ⟨.EIO, some 299⟩ "proc_cmdline" ⟨.EIO, some 299⟩ ⟨42, .alive, true⟩ = (.value, 2) ∧
+    methodFault2 cfg .windows ⟨"cmdline", ["wrap_exceptions", "retry_error_partial_copy"]⟩ "proc_cmdline"
+      ⟨.EPERM, none⟩ "proc_cmdline" ⟨.ESRCH, none⟩ ⟨42, .alive, true⟩ = (.nsp 42 true, 0) := by decide
+
+/-- Solaris `open_files()`: one fd link vanished (noted), the next one is unreadable → AccessDenied -/
+example : methodFault2 cfg .sunos ⟨"open_files", ["wrap_exceptions"]⟩ "os.readlink" ⟨.ENOENT, none⟩
+    "os.readlink" ⟨.EACCES, none⟩ ⟨42, .alive, true⟩ = (.ad 42 true, 0) := by decide
+
 /-- **C20_partial_copy_retry.** Windows: a native call that keeps failing with
     ERROR_PARTIAL_COPY inside `cmdline()`, `environ()` or `cwd()` is retried 33 times and then
     reported as AccessDenied(pid, name). -/
@@ -278,6 +288,31 @@ theorem C20_slots_match :
     ∀ f ∈ Family.all,
       (∀ q ∈ feedsOf f, q ∈ (Spec.slotNamedFor.lookup f.key).getD []) ∧
       (∀ q ∈ (Spec.slotNamedFor.lookup f.key).getD [], q ∈ feedsOf f) := by decide +kernel
+
+/-- **C20_all_record_reads_named.** On every path of every function of the five modules (main
+    path, `except`-handler fall-backs, comprehensions, module-level probes) a native one-shot
+    record is only ever read as `<record>[<map>['<slot name>']]`, and a slot map is only ever
+    used that way: no positional index, no computed slot name, no `*record`. Hence
+    `C20_slots_match` speaks about *every* read of those records, whichever path it is on. -/
+theorem C20_all_record_reads_named : Gen.C20.unnamedRecordRefs = [] := by decide
+
+def fallbackFeedsOf (f : Family) : List (String × String) := (Gen.C20.fallbackFeeds.lookup f.key).getD []
+
+/-- **C20_fallback_slots_match.** The slot reads that sit inside an `except` handler (the
+    alternative paths: Windows slower fall-backs of `memory_info`/`memory_full_info`, `cpu_times`,
+    `create_time`, `io_counters`, `num_handles`; Solaris `uids`/`gids` from psinfo) are exactly the
+    documented ones, in the documented order, and each of them is a row of the feed table that
+    `C20_slots_match` ties to the slot named for the field. -/
+theorem C20_fallback_slots_match :
+    ∀ f ∈ Family.all,
+      fallbackFeedsOf f = (Spec.fallbackSlots.lookup f.key).getD [] ∧
+      (fallbackFeedsOf f).all (fun q => (feedsOf f).any fun row => row.1 == q.1 && row.2.2.2 == q.2) = true := by
+  decide +kernel
+
+/-- non-vacuous: Windows has twenty fall-back reads, among them `pagefile` before `peak_pagefile` -/
+example : (fallbackFeedsOf .windows).length = 20 ∧
+    ((fallbackFeedsOf .windows).map (·.2)).idxOf "pinfo_map.pagefile"
+      < ((fallbackFeedsOf .windows).map (·.2)).idxOf "pinfo_map.peak_pagefile" := by decide +kernel
 
 /-- is `nt` (one of) the namedtuple type(s) the documentation shows for `meth`? -/
 def ntupleOK (meth nt : String) : Bool :=
